@@ -255,7 +255,7 @@ class C07(Check):
         "SQLite only",
     ]
     budget = {
-        "quick": dict(examples=60, shards=16, seconds=150),
+        "quick": dict(examples=110, shards=16, seconds=200),
         "thorough": dict(examples=500, shards=16, seconds=1500),
     }
 
